@@ -234,18 +234,19 @@ func c14ProfileT(tag string, k int, light bool, sample int) c14Profile {
 	return c14Profile{v: v, ds: [6]int{y1, m1, d1, y2, m2, d2}, days: want, k: k}
 }
 
-// a decoded profile always has the three segments; those the document does not list are 00:00-00:00
+// the segments the value has come back as they are; a segment the value does not have comes back absent or
+// as 00:00-00:00 (the decoder fills in the three segments of a controller profile)
 func c14SameProfile(p c14Profile, w TimeProfile) bool {
 	ok := w.ID == p.v.ID && w.LinkedProfileID == p.v.LinkedProfileID
 	ok = ok && c14IsDate(w.From, p.ds[0], p.ds[1], p.ds[2]) && c14IsDate(w.To, p.ds[3], p.ds[4], p.ds[5])
-	ok = ok && c14SameWeekdays(w.Weekdays, p.days) && len(w.Segments) == 3
+	ok = ok && c14SameWeekdays(w.Weekdays, p.days) && len(w.Segments) <= 3
 	for i := 1; i <= 3; i++ {
 		got, has := w.Segments[uint8(i)]
-		want := Segment{}
 		if i <= p.k {
-			want = p.v.Segments[uint8(i)]
-		}
-		if !has || got != want {
+			if !has || got != p.v.Segments[uint8(i)] {
+				ok = false
+			}
+		} else if has && got != (Segment{}) {
 			ok = false
 		}
 	}
